@@ -55,12 +55,16 @@ class Run(RunBase):
             for sp in specs:
                 for kx in ("adjl", "adjl_same", "adjr", "adjr_same"):
                     sp.pop(kx, None)
-            sc2 = _new_scenario()
-            sc2.add_objects(LaneletNetwork.create_from_lanelet_list([build.build_lanelet(sp) for sp in specs]))
-            self.shadow = {"sc": sc2, "sc_known": {sp["id"] for sp in specs}, "route": "create_from_lanelet_list",
-                           "present": {sp["id"]: {"left": np.array(sp["left"], dtype=float),
-                                                  "right": np.array(sp["right"], dtype=float)} for sp in specs}}
-            self.probe("second-network-with-other-lanelet-ids")
+            try:
+                sc2 = _new_scenario()
+                sc2.add_objects(LaneletNetwork.create_from_lanelet_list([build.build_lanelet(sp) for sp in specs]))
+                self.shadow = {"sc": sc2, "sc_known": {sp["id"] for sp in specs}, "route": "create_from_lanelet_list",
+                               "present": {sp["id"]: {"left": np.array(sp["left"], dtype=float),
+                                                      "right": np.array(sp["right"], dtype=float)} for sp in specs}}
+                self.probe("second-network-with-other-lanelet-ids")
+            except Exception as e:  # noqa   building well-formed lanelets must not fail: reported at the first step
+                self._deferred = Violation("C06/construction-raised<-create_from_lanelet_list",
+                                           f"building a network from well-formed lanelets raised {type(e).__name__}: {e}")
 
     _FIELDS = ("sc", "present", "sc_known", "route")
 
@@ -110,6 +114,13 @@ class Run(RunBase):
         if k == "add_from_network":
             return all(x in self.pool for x in op["keys"]) and len(ids) == len(op["keys"]) and len(ids) > 0 and \
                 not (ids & set(self.present))
+        if k == "scenario_add_list":
+            # free lanelets followed by one whose id this scenario has reserved already
+            keys = op["keys"]
+            return len(keys) >= 2 and all(x in self.pool for x in keys) and len(ids) == len(keys) and \
+                not (ids & set(self.present)) - {self.pool[keys[-1]]["id"]} and \
+                all(self.pool[x]["id"] not in self.sc_known for x in keys[:-1]) and \
+                self.pool[keys[-1]]["id"] in self.sc_known and self.pool[keys[-1]]["id"] in self.present
         if k == "add_batch":
             return all(x in self.pool for x in op["keys"]) and len(ids) == len(op["keys"]) >= 2 and \
                 not (ids & set(self.present))
@@ -338,7 +349,7 @@ class Run(RunBase):
     def _panel(self):
         self._check_members()
         polys = self._polys()
-        pts = [(987.0, -654.0)]
+        pts = [(987.0, -654.0)] + list(getattr(self, "ghosts", []))  # where removed lanelets used to be
         for la in self.net.lanelets:
             c, l, r = la.center_vertices, la.left_vertices, la.right_vertices
             nseg = len(c) - 1
@@ -360,6 +371,8 @@ class Run(RunBase):
 
     # ------------------------------------------------------------------ ops
     def apply(self, op):
+        if getattr(self, "_deferred", None) is not None:
+            raise self._deferred
         k = op["op"]
         out = getattr(self, "_op_" + k)(op)
         if k not in ("q_pos", "q_shape", "panel", "swap") and (self.cfg["panel_after_mutation"] or k == "bystander"):
@@ -453,9 +466,35 @@ class Run(RunBase):
         return "ok"
 
     def _op_remove(self, op):
+        la = self.net.find_lanelet_by_id(op["id"])
+        if la is not None:
+            c = la.center_vertices
+            self.ghosts = (getattr(self, "ghosts", []) + [tuple((c[0] + c[1]) / 2), tuple((c[-2] + c[-1]) / 2)])[-8:]
         self._route("remove_lanelet", lambda: self.net.remove_lanelet(op["id"]))
         self.present.pop(op["id"])
         return "ok"
+
+    def _op_scenario_add_list(self, op):
+        """Scenario.add_objects([lanelets..., <an element that must be refused>]): the batch fails half-way; the
+        lanelets taken over before the failure are in the network and have to be found by the lookups."""
+        specs = [self.pool[k] for k in op["keys"]]
+        self.faults["F-midbatch"] += 1
+        built = [build.build_lanelet(sp) for sp in specs]
+        self.route = "Scenario.add_objects([.., refused])"
+        self.probe("route:" + self.route)
+        try:
+            self.sc.add_objects(built)
+            raised = False
+        except ValueError:
+            raised = True
+        except Exception as e:  # noqa
+            raise Violation(f"C06/construction-raised<-{self.route}", f"{self.route} raised {type(e).__name__}: {e}")
+        for sp in specs:
+            if sp["id"] in self.sc_known:
+                break  # refused here (id reserved in this scenario): everything before it was added
+            self._expect(sp)
+            self.sc_known.add(sp["id"])
+        return {"raised": raised}
 
     def _op_cut_out(self, op):
         la = self.net.find_lanelet_by_id(op["lanelet"])
@@ -663,6 +702,13 @@ def _builder(rng, run, cfg):
             yield {"op": r, "keys": rng.sample(free, rng.randint(1, len(free)))}
         elif r == "add_batch" and len(free) >= 2:
             yield {"op": r, "keys": rng.sample(free, rng.randint(2, len(free)))}
+        elif r == "scenario_add_list" and free:
+            used = [k for k in keys if run.pool[k]["id"] in run.present and run.pool[k]["id"] in run.sc_known]
+            if used:
+                op = {"op": r, "keys": rng.sample(free, rng.randint(1, min(3, len(free)))) + [rng.pick(used)]}
+                yield op if run.enabled(op) else None
+            else:
+                yield None
         elif r == "add_clash" and run.present:
             used = [k for k in keys if run.pool[k]["id"] in run.present]
             clash = [k for k in all_keys if k.startswith("x") and run.pool[k]["id"] in run.present]
@@ -749,7 +795,7 @@ def _restarter(rng, run, cfg):
             yield {"op": "restart", "how": rng.pick(cfg["restart_kinds"]), "keep": rng.chance(0.5)}
 
 
-ROUTES = ["create_from_list", "add_one", "scenario_add", "add_from_network", "remove", "cut_out", "add_clash", "add_batch"]
+ROUTES = ["create_from_list", "add_one", "scenario_add", "add_from_network", "remove", "cut_out", "add_clash", "add_batch", "scenario_add_list"]
 RESTARTS = ["deepcopy", "deepcopy_net", "pickle", "pickle_net", "xml", "xml_net", "pb"]
 
 
@@ -767,7 +813,7 @@ class C06(Property):
                        "candidate-list-with-repeated-obstacle-id", "fork-keeps-original",
                        "continued-on-the-other-copy", "lattice-point-exactly-on-a-lanelet-border",
                        "lattice-shape-exactly-tangent-to-a-lanelet", "bystander-draw", "bystander-derive",
-                       "second-network-with-other-lanelet-ids"]
+                       "second-network-with-other-lanelet-ids", "route:Scenario.add_objects([.., refused])"]
     assumptions = [
         "geometric truth comes from crkit.geom (raw vertices / parameters, shapely predicates on geometry built there) "
         "with a don't-care band: clearance or penetration below 1e-7, and for circles distances in [0.99 r, r] "
